@@ -22,9 +22,14 @@ pub enum Route {
     WriteTo,
     WriteAllTo,
     Load,
+    /// the same stream forms over a stream that moves at most 2 (reader) / 3 (writer) bytes per call
+    ReadFromShort,
+    ReadExactFromShort,
+    WriteToShort,
+    WriteAllToShort,
 }
 
-pub const ROUTES: [Route; 12] = [
+pub const ROUTES: [Route; 16] = [
     Route::Write,
     Route::WriteSlice,
     Route::WriteObj,
@@ -37,11 +42,55 @@ pub const ROUTES: [Route; 12] = [
     Route::WriteTo,
     Route::WriteAllTo,
     Route::Load,
+    Route::ReadFromShort,
+    Route::ReadExactFromShort,
+    Route::WriteToShort,
+    Route::WriteAllToShort,
 ];
+
+/// A reader / writer that moves only a few bytes per call although it has more.
+pub struct Chunked {
+    pub data: Vec<u8>,
+    pub pos: usize,
+    pub chunk: usize,
+}
+
+impl vm_memory::ReadVolatile for Chunked {
+    fn read_volatile<B: vm_memory::bitmap::BitmapSlice>(&mut self, buf: &mut vm_memory::VolatileSlice<B>) -> Result<usize, vm_memory::VolatileMemoryError> {
+        let n = buf.len().min(self.chunk).min(self.data.len() - self.pos);
+        let r = buf.write(&self.data[self.pos..self.pos + n], 0);
+        let _ = r;
+        self.pos += n;
+        Ok(n)
+    }
+}
+
+impl vm_memory::WriteVolatile for Chunked {
+    fn write_volatile<B: vm_memory::bitmap::BitmapSlice>(&mut self, buf: &vm_memory::VolatileSlice<B>) -> Result<usize, vm_memory::VolatileMemoryError> {
+        let n = buf.len().min(self.chunk);
+        let mut tmp = vec![0u8; n];
+        let _ = buf.read(&mut tmp, 0);
+        self.data.extend_from_slice(&tmp);
+        Ok(n)
+    }
+}
+
+impl Route {
+    /// the route whose reference semantics this one shares
+    pub fn base(self) -> Route {
+        match self {
+            Route::ReadFromShort => Route::ReadFrom,
+            Route::ReadExactFromShort => Route::ReadExactFrom,
+            Route::WriteToShort => Route::WriteTo,
+            Route::WriteAllToShort => Route::WriteAllTo,
+            r => r,
+        }
+    }
+}
 
 impl Route {
     pub fn is_write(self) -> bool {
-        matches!(self, Route::Write | Route::WriteSlice | Route::WriteObj | Route::ReadFrom | Route::ReadExactFrom | Route::Store)
+        matches!(self.base(), Route::Write | Route::WriteSlice | Route::WriteObj | Route::ReadFrom | Route::ReadExactFrom | Route::Store)
     }
     fn from_str(s: &str) -> Option<Route> {
         ROUTES.iter().cloned().find(|r| format!("{:?}", r) == s)
@@ -199,6 +248,27 @@ pub fn exec<M: GuestMemory>(m: &M, op: &Op) -> (Out, Vec<u8>) {
             let r = cls(m.write_all_volatile_to(a, &mut sink, op.len), |_| Out::Unit);
             (r, sink)
         }
+        Route::ReadFromShort | Route::ReadExactFromShort => {
+            let src_data: Vec<u8> = data.iter().cloned().chain(std::iter::repeat(0x7f).take(op.len)).collect();
+            let total = src_data.len();
+            let mut src = Chunked { data: src_data, pos: 0, chunk: 2 };
+            let r = if op.route == Route::ReadFromShort {
+                cls(m.read_volatile_from(a, &mut src, op.len), Out::Count)
+            } else {
+                cls(m.read_exact_volatile_from(a, &mut src, op.len), |_| Out::Unit)
+            };
+            let _ = total;
+            (r, vec![src.pos as u8])
+        }
+        Route::WriteToShort | Route::WriteAllToShort => {
+            let mut sink = Chunked { data: Vec::new(), pos: 0, chunk: 3 };
+            let r = if op.route == Route::WriteToShort {
+                cls(m.write_volatile_to(a, &mut sink, op.len), Out::Count)
+            } else {
+                cls(m.write_all_volatile_to(a, &mut sink, op.len), |_| Out::Unit)
+            };
+            (r, sink.data)
+        }
         Route::Load => {
             let r = match op.len {
                 1 => cls(m.load::<u8>(a, Ordering::SeqCst), |v| Out::Data(vec![v])),
@@ -270,6 +340,8 @@ fn dump<M: GuestMemory + RegionPtrs>(m: &M, l: &Layout) -> Vec<u8> {
 pub fn expect(l: &Layout, model: &mut Model, op: &Op, aligned_ok: bool) -> (Out, Vec<u8>) {
     let n = l.run(op.addr, op.len as u128) as usize;
     let data = op.data();
+    let base_op = Op { route: op.route.base(), ..*op };
+    let op = &base_op;
     match op.route {
         Route::Write | Route::ReadFrom => {
             for j in 0..n {
@@ -361,6 +433,7 @@ pub fn expect(l: &Layout, model: &mut Model, op: &Op, aligned_ok: bool) -> (Out,
                 (Out::OtherErr(String::new()), vec![])
             }
         }
+        Route::ReadFromShort | Route::ReadExactFromShort | Route::WriteToShort | Route::WriteAllToShort => unreachable!("mapped to the base route above"),
     }
 }
 
@@ -406,7 +479,7 @@ fn step<M: GuestMemory + RegionPtrs>(
         bad = Some((format!("result{}", sub), format!("returned {:?}, expected {:?}", got, want)));
     } else if after != model.flat() {
         bad = Some((format!("memory{}", sub), format!("guest memory is {} but should be {}", hex(&after), hex(&model.flat()))));
-    } else if !matches!(want, Out::OtherErr(_)) && got_buf != want_buf && !(matches!(got, Out::InvalidAddr | Out::Partial(..)) && matches!(op.route, Route::WriteTo | Route::WriteAllTo)) {
+    } else if !matches!(want, Out::OtherErr(_)) && got_buf != want_buf && !(matches!(got, Out::InvalidAddr | Out::Partial(..)) && matches!(op.route.base(), Route::WriteTo | Route::WriteAllTo)) {
         bad = Some((format!("buffer{}", sub), format!("buffer/sink/consumed is {} but should be {}", hex(&got_buf), hex(&want_buf))));
     }
     if bad.is_none() {
